@@ -301,19 +301,23 @@ def s_abandon_then_unary(sc, svc, tag, pos):
 # kind -> [(script, positions)]     kind = the abstract class of Pool.tla / PoolUse.tla
 # kind -> [(script, positions, exception classes the on_log callback raises)]
 #   kind = the abstract class of Pool.tla / PoolUse.tla; exception class "none" = the script has no raising callback
-_N, _E, _OB, _ALL = ["none"], ["Exception"], ["OSError", "Base"], ["Exception", "OSError", "Base"]
+_N, _E, _B, _O, _EB, _ALL = ["none"], ["Exception"], ["Base"], ["OSError"], ["Exception", "Base"], ["Exception", "OSError", "Base"]
 SCRIPTS = {
     "clean": [(s_unary, [0], _N), (s_stream_full, [0], _N), (s_stream_close, [0, 1, 3], _N), (s_stream_cancel, [0, 2], _N),
-              (s_xchg_close, [0, 2], _N), (s_unary_intr, [1, 2, 3], _E), (s_close_intr, [1, 2, 3], _E),
-              (s_unary_error, [0, 1], _N), (s_stream_error, [0, 1, 2], _N), (s_init_error, [0, 1], _N),
-              (s_xchg_error, [0], _N)],
-    "abandon": [(s_abandon, [0, 1, 2, 3], _N), (s_abandon_hdr, [0, 1], _N), (s_tick_intr, [1, 2, 3], _ALL),
-                (s_xchg_intr, [1, 2], _ALL), (s_hdr_intr, [1, 2], _ALL), (s_abandon_then_unary, [0, 1], _N)],
+              (s_xchg_close, [0, 2], _N), (s_unary_error, [0, 1], _N), (s_stream_error, [0, 1, 2], _N),
+              (s_init_error, [0], _N), (s_xchg_error, [0], _N)],
+    "abandon": [(s_abandon, [0, 1, 2, 3], _N), (s_abandon_hdr, [0, 1], _N), (s_tick_intr, [1, 2, 3], _EB),
+                (s_xchg_intr, [1, 2], _EB), (s_hdr_intr, [1, 2], _ALL), (s_abandon_then_unary, [0, 1], _N),
+                (s_init_error, [1], _N)],       # (a stream request that never produced a session: the pool cannot
+                                                #  tell a server-side init error from an interrupted header read)
     "nonlast": [(s_abandon_then_close, [0, 1, 2], _N), (s_abandon_then_cancel, [1], _N),
                 (s_closed_then_hdr_intr, [1, 2], _ALL)],
-    # a call / a close()-drain interrupted by a client-side exception that is not a plain `Exception`
-    "intr": [(s_unary_intr, [1, 2, 3], _OB), (s_close_intr, [1, 2, 3], _OB)],
+    # a call, a stream turn or a close()-drain cut short by a client-side exception after which no stream is left
+    # *visibly* open: the client must drain, or the pool must be told
+    "intr": [(s_unary_intr, [1, 2, 3], _ALL), (s_close_intr, [1, 2, 3], _ALL), (s_tick_intr, [1, 2, 3], _O),
+             (s_xchg_intr, [1, 2], _O)],
 }
+INTR_OK: set | None = None      # set by the driver after calibration: the "intr" variants that behave like the model's IntrMode
 
 
 def all_scripts() -> list[tuple[str, str, int, str]]:
@@ -372,6 +376,7 @@ class PoolWorld:
         self.tags = itertools.count(10)
         self.tseq = itertools.count(1)
         self.last_use: dict[int, str] = {}      # worker -> "kind:script" of the last script that ran on it
+        self.model_guided = False               # replaying a TLC path: "intr" variants must behave like the model's IntrMode
         w = self
 
         class EventShim:
@@ -613,9 +618,9 @@ class PoolWorld:
         if self.sched.label(name) == "use":
             k = kind or "clean"
             if script is None:
-                fn, ps, es = (self.rng.choice(SCRIPTS[k]) if self.rng else SCRIPTS[k][0])
-                script, pos = fn.__name__, (self.rng.choice(ps) if self.rng else ps[0])
-                exc = self.rng.choice(es) if self.rng else es[0]
+                cands = [(fn.__name__, p_, e_) for fn, ps, es in SCRIPTS[k] for p_ in ps for e_ in es
+                         if not (k == "intr" and self.model_guided and INTR_OK is not None and (fn.__name__, e_) not in INTR_OK)]
+                script, pos, exc = self.rng.choice(cands) if self.rng else cands[0]
             self.kind[b - 1] = (k, script, pos, exc or "none")
             used = k
         self.sched.step(name)
@@ -711,6 +716,7 @@ def run_path(behaviour: list[dict], init_state: dict, nb: int, rng) -> dict:
     drift = None
     with PoolWorld(nb, init_state["nRounds"], init_state["maxIdle"], reaper=init_state["rpc"] != "off",
                    closer=init_state["cpc"] != "off", rng=rng, nkeys=init_state["nKeys"]) as w:
+        w.model_guided = True
         for i, b in enumerate(behaviour):
             try:
                 ev = apply(w, b["action"], b["args"])
@@ -763,23 +769,24 @@ def calibrate() -> dict:
             for _ in range(6):
                 ev = w.step_b(1, "nonlast")
             out["Dev_LastSessionOnly"] = len(ev["idle"]) > 0
-        modes = set()
-        for script in ("s_unary_intr", "s_close_intr"):
-            for exc in ("OSError", "Base"):
+        modes: dict[str, str] = {}
+        for fn, _ps, es in SCRIPTS["intr"]:
+            for exc in es:
                 with PoolWorld(1, 2, 1, reaper=False, closer=False) as w:
                     for _ in range(4):
                         w.step_b(1)
-                    w.step_b(1, "intr", script, 1, exc)          # the script runs
+                    w.step_b(1, "intr", fn.__name__, 1, exc)       # the script runs
                     ev = w.step_b(1)                                # the worker is returned (or not)
                     if not ev["idle"]:
-                        modes.add("discard")
+                        modes[f"{fn.__name__}:{exc}"] = "discard"
                         continue
                     w.step_b(1)                                     # second round: the same borrower gets it again
                     w.step_b(1, "clean", "s_unary", 0, "none")
                     ok = [m["ok"] for m in w.mon if m["e"] == "Probe"]
-                    modes.add("drain" if ok and ok[-1] else "keep")
-        out["IntrMode"] = "keep" if "keep" in modes else ("discard" if modes == {"discard"} else "drain")
-        out["intr_modes_seen"] = sorted(modes)
+                    modes[f"{fn.__name__}:{exc}"] = "drain" if ok and ok[-1] else "keep"
+        seen = set(modes.values())
+        out["IntrMode"] = "keep" if "keep" in seen else ("discard" if "discard" in seen else "drain")
+        out["intr_modes"] = modes
     except Exception as e:  # noqa: BLE001
         out["error"] = repr(e)
     return out
